@@ -883,8 +883,18 @@ BUILTINS["pandas.Series"] = pd_series
 BUILTINS["pandas.DataFrame"] = lambda ex, st, args, kwargs, node: pd_dataframe(ex, st, args, kwargs, node)
 
 
+class ColNames(tuple):
+    """the column names of a table (a plain tuple of strings that remembers which table it came from)"""
+    tab = None
+
+
 def pd_dataframe(ex, st, args, kwargs, node):
     v = st.get(args[0]) if args else None
+    if v is None and set(kwargs) == {"columns"}:
+        cn = st.get(kwargs["columns"])
+        if isinstance(cn, ColNames) and cn.tab is not None:
+            # an empty frame with the columns of an existing table
+            return st.alloc(tab_rows(cn.tab, 0, 0, RangeIdx(0)))
     if isinstance(v, Tab):
         return st.alloc(v)
     if isinstance(v, DictV):
@@ -913,7 +923,9 @@ def tab_attr(ex, st, o, t, attr, node):
     if attr in ("iloc", "loc", "iat", "at"):
         return [(st, Indexer(attr, o))]
     if attr == "columns":
-        return [(st, tuple(t.cols))]
+        cn = ColNames(t.cols)
+        cn.tab = t
+        return [(st, cn)]
     if attr == "empty":
         return [(st, _simpb(to_z3(t.n) == 0))]
     if attr == "index":
@@ -1366,3 +1378,74 @@ def sp_psum(ex, st, args, kwargs, node):
     v = st.get(args[0])
     m = st.get(args[1])
     return prefix_sum_fn(ex, st, v)(to_z3(m))
+
+
+@vm("drop_duplicates")
+def v_drop_duplicates(ex, st, o, args, kwargs, node):
+    """Series.drop_duplicates(): an opaque function of the vector (what it keeps is not modelled)"""
+    from .values import OpaqueVecApp
+    used(ex, "Series.drop_duplicates() is an opaque function of its receiver")
+    return st.alloc(OpaqueVecApp("drop_duplicates", st.get(o)))
+
+
+@builtin("numpy.median")
+def np_median(ex, st, args, kwargs, node):
+    if kwargs:
+        raise Unsupported("np.median keywords")
+    return vec_median(ex, st, st.get(args[0]))
+
+
+def vec_functional(ex, st, name, v):
+    """An opaque real-valued functional of a vector (a callable parameter such as an estimator): one value per
+    vector object, equal for vectors that agree element by element (congruence, stated pairwise per path)."""
+    if isinstance(v, ListV):
+        items = [st.get(x) for x in v.items]
+        v = Vec(len(items), lambda k, items=items: _pick(items, k), kind="list")
+    if not isinstance(v, Vec):
+        raise Unsupported("opaque functional %s of %r" % (name, v))
+    used(ex, "callable parameter %s: an opaque real functional of its vector argument (congruent)" % name)
+    cache = ex.__dict__.setdefault("_vecfun_cache", {})
+    hit = cache.get((name, id(v.at)))
+    if hit is None or hit[1] is not v.at or hit[2] is not v.n:
+        hit = (fresh(R, name.lower()), v.at, v.n)
+        cache[(name, id(v.at))] = hit
+    val = hit[0]
+    key = "vf:%s" % name
+    prev = list(st.ghost.get(key, ()))
+    if not any(p[0] is val for p in prev):
+        for (t2, v2) in prev[-6:]:
+            k = fresh(I, "k")
+            try:
+                e1, e2 = v.at(k), v2.at(k)
+                if isinstance(e1, NF) or isinstance(e2, NF):
+                    e1 = e1 if isinstance(e1, NF) else NF(z3.BoolVal(False), to_real(e1))
+                    e2 = e2 if isinstance(e2, NF) else NF(z3.BoolVal(False), to_real(e2))
+                    eq = z3.And(e1.null == e2.null, z3.Or(e1.null, e1.val == e2.val))
+                else:
+                    eq = to_z3(e1) == to_z3(e2)
+                same = z3.And(to_z3(v.n) == to_z3(v2.n), z3.ForAll([k], z3.Implies(z3.And(0 <= k, k < to_z3(v.n)), eq)))
+            except Exception:
+                continue
+            st.assume(z3.Implies(same, val == t2))
+        st.ghost = dict(st.ghost)
+        st.ghost[key] = tuple(prev + [(val, v)])
+    return val
+
+
+@method(StrAcc, "match")
+def stracc_match(ex, st, o, args, kwargs, node):
+    """Series.str.match(<literal pattern>, na=False) on name atoms: an uninterpreted predicate per pattern, exact on
+    the literal names that occur"""
+    acc = st.get(o)
+    v = st.get(acc.ref)
+    pat = st.get(args[0])
+    if not isinstance(pat, str) or set(kwargs) - {"na"}:
+        raise Unsupported("str.match with a symbolic pattern / keywords")
+    probe = to_z3(v.at(z3.IntVal(0)))
+    if not is_atom(probe):
+        raise Unsupported("str.match on non-atom strings")
+    used(ex, "Series.str.match(%r) on name atoms: uninterpreted predicate, exact on literal names" % pat)
+    tag = "".join(c if c.isalnum() else "_%02x" % ord(c) for c in pat)
+    f = ex.ctx.uf("match_%s_%s" % (tag, probe.sort().name()), probe.sort(), B)
+    ex.ctx.atom_funs.setdefault(("match", probe.sort().name(), pat), f)
+    return st.alloc(Vec(v.n, lambda k, v=v, f=f: f(to_z3(v.at(k))), idx=v.idx, kind="series"))
